@@ -45,11 +45,26 @@ def c06a(ctx, tu):
         except Unknown as u:
             ctx.ob("C06.a", A["seq_is_completed"], None, pattern=fn.pat, unit=tu.name, detail="cannot interpret: %s" % u)
     # a handle's is_satisfied is its handler's
+    HB = "trompeloeil::sequence_handler_base::"
     for fn in tu.need("trompeloeil::sequence_matcher::is_satisfied"):
-        rets = [e.get("x") for b, e in fn.events() if e["e"] == "return"]
-        ok = len(rets) == 1 and lib.tree_name(rets[0]) == A["is_satisfied"] and "sequence_matcher::sequence_handler" in str(rets[0])
-        ctx.ob("C06.a", "trompeloeil::sequence_matcher::is_satisfied", ok, pattern=fn.pat, unit=tu.name,
-               detail="" if ok else "a sequence handle must report its own expectation's is_satisfied()")
+        # the handle is satisfied exactly when its own expectation's handled count has reached the lower bound -
+        # asked of the handler it refers to (is_satisfied(), or the count / bound accessors)
+        why = None
+        try:
+            for c in (0, 1, 2):
+                for lo in (0, 1, 2):
+                    o = Oracle(calls={A["is_satisfied"]: c >= lo, HB + "get_calls": c, HB + "get_min_calls": lo}, any_member=True)
+                    r = Interp(fn, o).run()
+                    if r != ("return", c >= lo) and why is None:
+                        why = "count %d, lower bound %d -> %s" % (c, lo, r)
+            href = lib.peer_roles(tu).get("handler_ref", "trompeloeil::sequence_matcher::sequence_handler")
+            if why is None and href not in erase(str([e for b, e in fn.events()])):
+                why = "the answer does not come from the handle's own handler"
+            ctx.ob("C06.a", "trompeloeil::sequence_matcher::is_satisfied", why is None, pattern=fn.pat, unit=tu.name,
+                   detail="" if why is None else "a sequence handle must report its own expectation's is_satisfied(): " + why)
+        except Unknown as u:
+            ctx.ob("C06.a", "trompeloeil::sequence_matcher::is_satisfied", None, pattern=fn.pat, unit=tu.name,
+                   detail="cannot interpret: %s" % u)
     for fn in tu.need("trompeloeil::sequence::is_completed"):
         rets = [e.get("x") for b, e in fn.events() if e["e"] == "return"]
         ok = len(rets) == 1 and lib.tree_name(rets[0]) == A["seq_is_completed"] and "sequence::obj" in str(rets[0])
